@@ -13,7 +13,7 @@
 (* by LayoutImplMC (step-wise model checking, ranking function).            *)
 (*                                                                         *)
 (* Terms (JSON arrays -> TLA+ tuples):                                      *)
-(*   <<"t", n, id>>  text of length n (n = 0 is the empty str)              *)
+(*   <<"t", n, id, r>>  text of length n (0 = empty str), r = rstripped len *)
 (*   <<"nil">> <<"hl">>                                                     *)
 (*   <<"cat", <<d...>>>>  <<"fill", <<d...>>>>                              *)
 (*   <<"nest", i, d>> <<"grp", d>> <<"ab", d>> <<"ann", a, d>>              *)
@@ -126,10 +126,10 @@ FitsI(smart, pw, mn, maxw, left, st) ==
 -----------------------------------------------------------------------------
 (* layout.py: best_layout.  Machine state = [st, col, out].                 *)
 
-TextOut(d) == [k |-> "t", n |-> d[2], t |-> d[3], a |-> 0]
-LineOut(i) == [k |-> "nl", n |-> i, t |-> 0, a |-> 0]
-PushOut(a) == [k |-> "push", n |-> 0, t |-> 0, a |-> a]
-PopOut(a) == [k |-> "pop", n |-> 0, t |-> 0, a |-> a]
+TextOut(d) == [k |-> "t", n |-> d[2], t |-> d[3], a |-> 0, r |-> d[4]]
+LineOut(i) == [k |-> "nl", n |-> i, t |-> 0, a |-> 0, r |-> 0]
+PushOut(a) == [k |-> "push", n |-> 0, t |-> 0, a |-> a, r |-> 0]
+PopOut(a) == [k |-> "pop", n |-> 0, t |-> 0, a |-> a, r |-> 0]
 
 \* name of the elif branch taken for the top of the stack (for coverage)
 Branch(s) == s.st[Len(s.st)][3][1]
